@@ -833,7 +833,9 @@ func (r *RockDB) backupLoop() {
 					os.RemoveAll(rsp.backupDir)
 				}
 				rsp.rsp = []byte(rsp.backupDir)
+				verifCrashPoint("ck.save.before")
 				err = ck.Save(rsp.backupDir, rsp.started)
+				verifCrashPoint("ck.save.after")
 				r.checkpointDirLock.Unlock()
 				if err != nil {
 					dbLog.Infof("save checkpoint failed: %v", err)
@@ -849,9 +851,11 @@ func (r *RockDB) backupLoop() {
 			if r.cfg.KeepBackup > 0 {
 				keepNum = r.cfg.KeepBackup
 			}
+			verifCrashPoint("ck.purge.before", atomic.LoadUint64(&r.latestSnapIndex))
 			// avoid purge the checkpoint in the raft snapshot
 			purgeOldCheckpoint(keepNum, r.GetBackupDir(), atomic.LoadUint64(&r.latestSnapIndex))
 			purgeOldCheckpoint(MaxRemoteCheckpointNum, r.GetBackupDirForRemote(), math.MaxUint64-1)
+			verifCrashPoint("ck.purge.after", atomic.LoadUint64(&r.latestSnapIndex))
 			r.checkpointDirLock.Unlock()
 		case <-r.quit:
 			return
@@ -1076,6 +1080,7 @@ func (r *RockDB) restoreFromPath(backupDir string, term uint64, index uint64) er
 		dbLog.Infof("removing: %v", fn)
 		os.RemoveAll(fn)
 	}
+	verifCrashPoint("rs.remove.after", term, index)
 	for _, fn := range ckNameList {
 		if strings.HasPrefix(path.Base(fn), "LOG") {
 			dbLog.Infof("ignore copy LOG file: %v", fn)
@@ -1096,6 +1101,7 @@ func (r *RockDB) restoreFromPath(backupDir string, term uint64, index uint64) er
 		}
 	}
 
+	verifCrashPoint("rs.copy.after", term, index)
 	err = r.reOpenEng()
 	dbLog.Infof("restore done, cost: %v\n", time.Now().Sub(start))
 	if err != nil {
